@@ -455,6 +455,7 @@ def gen_c03_all(env, tier):
 def gen_c02_all(env, tier):
     gen_c02(env, tier)
     gen_live(env, tier, "C02")
+    gen_live(env, tier, "C02", with_axes=True)      # dimensions with two or three axes grow in place between evaluations
 
 
 def gen_c13_all(env, tier):
@@ -465,6 +466,7 @@ def gen_c13_all(env, tier):
 def gen_c05_all(env, tier):
     gen_c05(env, tier)
     gen_live(env, tier, "C05")
+    gen_live(env, tier, "C05", with_axes=True)
 
 
 def gen_c14_long(env, tier):
